@@ -585,7 +585,7 @@ def value_stories(ctx, rng, ink_exe, stats):
             out.append((os.path.relpath(f, common.INKFILES), txt))
         except ValueError:
             continue
-    ngen = 6 if ctx.quick() else 60
+    ngen = 8 if ctx.quick() else 60
     srcs = [gen_list_story(rng) for _ in range(ngen)]
     res = vlib.run_inkdrive([{"id": "g%d" % i, "ink": src, "want_json": True, "script": []}
                              for i, src in enumerate(srcs)], ink_exe, timeout=300)
@@ -601,7 +601,7 @@ def value_stories(ctx, rng, ink_exe, stats):
 def make_value_saves(ctx, rng, stories, exe, stats):
     """saves taken line by line along random choice paths; a few per story, preferring the ones that carry
     the most (values on the evaluation stack, choice threads, temps, changed globals)"""
-    npaths, keep = (3, 4) if ctx.quick() else (10, 16)
+    npaths, keep = (3, 5) if ctx.quick() else (10, 16)
     cases = []
     for si, (src, txt) in enumerate(stories):
         for k in range(npaths):
@@ -643,7 +643,7 @@ def make_value_saves(ctx, rng, stories, exe, stats):
 
 def value_cases(ctx, rng, vsaves):
     cases = []
-    nval, nvar = (30, 8) if ctx.quick() else (120, 30)
+    nval, nvar = (44, 10) if ctx.quick() else (120, 30)
 
     def add(kind, src, story, save):
         cases.append({"id": "x%d" % len(cases), "mode": "save", "story": story, "save": save, "kind": kind, "src": src})
